@@ -281,12 +281,11 @@ func (db *DB) Delete(key []byte) error {
 func (db *DB) ListKeys() [][]byte {
 	iterator := db.index.Iterator(false)
 	defer iterator.Close()
-	keys := make([][]byte, db.index.Size())
-	var idx int
+	// 结果长度只能由迭代器快照决定: Size 是另一时刻的读数, 并发写入下二者可能不一致
+	keys := make([][]byte, 0, db.index.Size())
 	// 直接通过迭代器遍历获取所有 key
 	for iterator.Rewind(); iterator.Valid(); iterator.Next() {
-		keys[idx] = iterator.Key()
-		idx++
+		keys = append(keys, iterator.Key())
 	}
 	return keys
 }
